@@ -43,3 +43,4 @@ def rules(ctx):
     S.mutator_release_rules(ctx)
     S.child_pair_rules(ctx)
     S.root_pair_rules(ctx)
+    S.survey_residue_rules(ctx)
